@@ -107,7 +107,15 @@ std::string alt_text(const AutDescription& d, uint32_t style)
 		os << ((style / 128) % 2 ? " -> " : "  ->  ") << t.third << "\n";
 		if ((style / 256) % 2) os << "\n";
 	}
-	return os.str();
+	std::string out = os.str();
+	if ((style / 512) % 2 && !out.empty() && out.back() == '\n') out.pop_back();       // no newline at the end of the text
+	if ((style / 1024) % 2) {                                                             // CR LF line ends
+		std::string crlf;
+		for (char c : out) { if (c == '\n') crlf += '\r'; crlf += c; }
+		out = crlf;
+	}
+	if ((style / 2048) % 2) out = "\n\n" + out;                                          // leading blank lines
+	return out;
 }
 
 struct Named { std::set<std::string> finals; std::set<std::tuple<std::string, std::vector<std::string>, std::string>> trans; };
